@@ -37,6 +37,9 @@ func vstrd(v ssa.Value, d int, seen map[ssa.Value]bool) string {
 	defer delete(seen, v)
 	switch v := v.(type) {
 	case *ssa.Parameter:
+		if a, ok := paramArg[v]; ok {
+			return vstrd(a, d+1, seen)
+		}
 		return "param:" + pname(v)
 	case *ssa.FreeVar:
 		return "free:" + pname(v)
@@ -276,6 +279,10 @@ func Roots(v ssa.Value) []Root {
 		seen[v] = true
 		switch v := v.(type) {
 		case *ssa.Parameter:
+			if a, ok := paramArg[v]; ok {
+				walk(a, path, d+1)
+				return
+			}
 			out = append(out, Root{"param", pname(v), path, v})
 		case *ssa.FreeVar:
 			out = append(out, Root{"free", pname(v), path, v})
